@@ -61,7 +61,7 @@ func ruleLimit(e *Env, ruleName string, pkgs ...string) {
 			for _, f := range fs {
 				c.RuleLimitFirst(f, 0, sent, 0)
 			}
-			c.RuleLimitZero(e.PkgFuncs(pkg))
+			c.RuleLimitZero(e.PkgFuncs(pkg), "MaxInputLength")
 			c.RuleSentinelOnlyInGuards(sent, e.PkgFuncs(pkg))
 			for i := range c.Out {
 				switch c.Out[i].Rule {
